@@ -75,6 +75,7 @@ func (s *Scenario) execFn() engine.ExecFn {
 }
 
 type schedMode struct {
+	Delay     bool
 	P, M      int
 	Unbounded bool
 	MaxExecs  int
@@ -84,6 +85,9 @@ func (m schedMode) String() string {
 	if m.Unbounded {
 		return "U"
 	}
+	if m.Delay {
+		return fmt.Sprintf("D%dM%d", m.P, m.M)
+	}
 	return fmt.Sprintf("P%dM%d", m.P, m.M)
 }
 
@@ -92,6 +96,11 @@ func parseMode(s string) schedMode {
 		return schedMode{Unbounded: true}
 	}
 	var m schedMode
+	if strings.HasPrefix(s, "D") {
+		m.Delay = true
+		fmt.Sscanf(s, "D%dM%d", &m.P, &m.M)
+		return m
+	}
 	fmt.Sscanf(s, "P%dM%d", &m.P, &m.M)
 	return m
 }
@@ -133,7 +142,7 @@ func planSched(scens []Scenario, depth int, judge func(sc *Scenario, st *engine.
 		fn := sc.execFn()
 		mode := parseMode(sc.Mode)
 		engine.DeterminismGuard(fn, nil)
-		ex := engine.NewExplorer(fn, engine.Opts{P: mode.P, M: mode.M, Unbounded: mode.Unbounded})
+		ex := engine.NewExplorer(fn, engine.Opts{P: mode.P, M: mode.M, Unbounded: mode.Unbounded, Delay: mode.Delay})
 		level := [][]int{nil}
 		for d := 0; d < depth; d++ {
 			var next [][]int
@@ -187,7 +196,7 @@ func execSched(scens []Scenario, job string, judge func(sc *Scenario, st *engine
 	key := fmt.Sprintf("%d|%s", j.Scen, j.Mode)
 	ex := explorers[key]
 	if ex == nil {
-		ex = engine.NewExplorer(sc.execFn(), engine.Opts{P: mode.P, M: mode.M, Unbounded: mode.Unbounded})
+		ex = engine.NewExplorer(sc.execFn(), engine.Opts{P: mode.P, M: mode.M, Unbounded: mode.Unbounded, Delay: mode.Delay})
 		explorers[key] = ex
 	}
 	ex.St = engine.NewStats()
